@@ -327,6 +327,7 @@ class HostBoom(Exception):
 def check_context(run: common.Run, steps: List[str], report) -> None:
     """steps: 'ok' | 'celerror' | 'hostraise' | 'nested-ok'. After every step C7N must be None; during, C7N.filter is that call's sentinel."""
     run.tick()
+    c7n.C7N = None  # every case starts from a clean process-wide context (a leak found by one case must not be blamed on the next)
     seen: List[Any] = []
 
     def probe() -> Any:
@@ -377,8 +378,9 @@ def check_context(run: common.Run, steps: List[str], report) -> None:
         if not seen or any(s != sentinel for s in seen):
             report(f"context-not-visible-during-{step}", dict(case, at=i), f"step {i} {step}: functions saw {seen}, expected {sentinel}")
         if c7n.C7N is not None:
-            report(f"context-not-cleared-after-{step}", dict(case, at=i), f"after step {i} ({step}) celpy.c7nlib.C7N is {c7n.C7N!r}")
+            left = repr(c7n.C7N)
             c7n.C7N = None  # do not let one failure cascade
+            report(f"context-not-cleared-after-{step}", dict(case, at=i), f"after step {i} ({step}) celpy.c7nlib.C7N is {left}")
     run.sample({"steps": steps}, bucket="ctx")
 
 
